@@ -176,21 +176,7 @@ fn unmarshal_header_fields(
                 fields.push(field);
             }
             Err(UnmarshalError::UnknownHeaderField) => {
-                // try to validate that there is indeed a valid dbus variant. This is mandatory so the message follows the spec,
-                // even if we just ignore the contents.
-                match crate::wire::validate_raw::validate_marshalled(
-                    header.byteorder,
-                    0,
-                    cursor.remainder(),
-                    &crate::signature::Type::Container(crate::signature::Container::Variant),
-                ) {
-                    Ok(bytes) => {
-                        // ignore happy path, but increase counter.
-                        cursor.advance(bytes);
-                    }
-                    // if the unknown header contains invalid values this is still an error, and the message should be treated as unreadable
-                    Err((_bytes, err)) => return Err(err),
-                }
+                // The field has been validated and skipped by unmarshal_header_field. Unknown fields must be ignored.
             }
             Err(e) => return Err(e),
         }
@@ -281,7 +267,20 @@ fn unmarshal_header_field(header: &Header, cursor: &mut Cursor) -> UnmarshalResu
             _ => Err(UnmarshalError::WrongSignature),
         },
         0 => Err(UnmarshalError::InvalidHeaderField),
-        _ => Err(UnmarshalError::UnknownHeaderField),
+        _ => {
+            // Validate that there is indeed a valid value for the signature. This is mandatory so the message
+            // follows the spec, even if we just ignore the contents. If the unknown header contains invalid values
+            // this is still an error, and the message should be treated as unreadable.
+            let bytes = crate::wire::validate_raw::validate_marshalled(
+                header.byteorder,
+                cursor.consumed(),
+                cursor.buf(),
+                &sig,
+            )
+            .map_err(|(_bytes, err)| err)?;
+            cursor.advance(bytes);
+            Err(UnmarshalError::UnknownHeaderField)
+        }
     }
 }
 
